@@ -353,7 +353,9 @@ pub fn run_check(
 	let _ = std::fs::create_dir_all(format!("{}/replays", verif_dir));
 	for (v, o) in own.iter() {
 		if let Some(k) = known.findings.iter().find(|k| {
-			k.property == v.property && k.oracle == v.oracle && v.message.contains(&k.matcher)
+			k.property == v.property
+				&& (k.oracle == v.oracle || k.oracle == "*")
+				&& v.message.contains(&k.matcher)
 		}) {
 			let line = format!("KNOWN-FINDING: property={} {}", k.property, k.what);
 			if !known_matched.contains(&line) {
